@@ -453,4 +453,7 @@ func runC01(c *Ctx) {
 
 	// ---- amount-nonneg (shared with C12)
 	checkAmountNonNeg(c, ea)
+
+	// ---- share-sum (shared with C02/share-shape): what a level pays out adds up to its total
+	checkShareShape(c, "share-sum")
 }
